@@ -73,7 +73,7 @@ func (y ystore) RegisterMetrics(registry metrics.Registry) {}
 // ---------------------------------------------------------------- scenarios
 
 type query struct {
-	Kind string `json:"kind"` // member | memberAt | consistency
+	Kind string `json:"kind"` // member | memberAt | consistency | memberEvent | memberEventAt
 	E    int    `json:"event,omitempty"`
 	Q    uint64 `json:"version,omitempty"`
 	I    uint64 `json:"start,omitempty"`
@@ -86,6 +86,10 @@ func (q query) String() string {
 		return fmt.Sprintf("member(e%d)", q.E)
 	case "memberAt":
 		return fmt.Sprintf("memberAt(e%d,%d)", q.E, q.Q)
+	case "memberEvent":
+		return "memberByEvent(never added)"
+	case "memberEventAt":
+		return fmt.Sprintf("memberByEventAt(never added,%d)", q.Q)
 	}
 	return fmt.Sprintf("consistency(%d,%d)", q.I, q.J)
 }
@@ -212,6 +216,23 @@ func (w *world) apply(index uint64, first, k int) {
 func (w *world) ask(x *sx.Exec, s scenario, q query, g []*balloon.Snapshot) {
 	n := uint64(len(g))
 	switch q.Kind {
+	case "memberEvent", "memberEventAt":
+		// the event-based entry points (they hash the event themselves); the event was never added
+		var p *balloon.MembershipProof
+		var err error
+		if q.Kind == "memberEvent" {
+			p, err = w.node.QueryMembership([]byte("an event that was never added"))
+		} else {
+			p, err = w.node.QueryMembershipConsistency([]byte("an event that was never added"), q.Q)
+		}
+		if err != nil {
+			x.Observe(q.String() + "=error")
+			return
+		}
+		x.Observe(fmt.Sprintf("%s=exists:%v", q, p.Exists))
+		if p.Exists {
+			x.Fail("a membership answer claims existence of an event that was never added", q.String())
+		}
 	case "member", "memberAt":
 		d := fx.Digest(q.E)
 		var p *balloon.MembershipProof
@@ -338,6 +359,10 @@ func scenarios(thorough bool) []scenario {
 				qs = append(qs, query{Kind: "member", E: 0}, query{Kind: "memberAt", E: 0, Q: uint64(pre - 1)}, query{Kind: "consistency", I: 0, J: uint64(pre - 1)})
 			}
 			qs = append(qs, query{Kind: "memberAt", E: inflight, Q: uint64(n - 1)}, query{Kind: "consistency", I: 0, J: uint64(n - 1)})
+			if pre == 3 && ent[0] == 1 || thorough {
+				qs = append(qs, query{Kind: "memberEvent"}, query{Kind: "memberEventAt", Q: uint64(pre)})
+				qs[len(qs)-3], qs[len(qs)-1] = qs[len(qs)-1], qs[len(qs)-3] // keep the full-range consistency query last
+			}
 			for qi, q := range qs {
 				if !thorough {
 					// quick: every query kind from a log of 3 events with a single in-flight event; for the other
